@@ -159,6 +159,47 @@ def check_interval(vec, a, b):
     return None
 
 
+def check_many_elements(n, salt):
+    """33-49 elements: the first 200 combinations of the order (monotone, distinct, index-ordered, and every combination of
+    up to three elements with a smaller key than the last one yielded is among them); interval search next to the smallest
+    score (the answer is known without enumeration)."""
+    import random
+    from windpyutils.generic import sorted_combinations, min_combinations_in_interval_iter_sorted as f
+    rng = random.Random(n * 7919 + salt)
+    scores = [rng.randint(5, 60) for _ in range(n)]
+    elems = list(range(n))
+    with instr.budget(20_000_000):
+        try:
+            got = outcome(lambda: list(itertools.islice(sorted_combinations(elems, key=lambda c: sum(scores[i] for i in c), yield_key=True), 200)))
+        except instr.StepBudgetExceeded:
+            return "operation-does-not-end", f"first 200 combinations of {n} elements exceeded the statement budget"
+    if got[0] != "ok":
+        return "operation-raised", f"sorted_combinations over {n} elements (first 200 taken) raised {got[1]}"
+    out = got[1]
+    keys = [k for _, k in out]
+    combs = [tuple(c) for c, _ in out]
+    if len(out) != 200 or keys != sorted(keys) or len(set(combs)) != 200 or any(list(c) != sorted(set(c)) for c in combs) \
+            or any(sum(scores[i] for i in c) != k for c, k in zip(combs, keys)):
+        return "order", f"first 200 combinations of {n} elements (scores {scores}): not 200 distinct index-ordered combinations in key order"
+    last = keys[-1]
+    have = set(combs)
+    for r in (1, 2, 3):
+        for c in itertools.combinations(range(n), r):
+            if sum(scores[i] for i in c) < last and c not in have:
+                return "order", (f"{n} elements (scores {scores}): combination {c} with key {sum(scores[i] for i in c)} is missing among the "
+                                 f"first 200 although the 200th key is {last}")
+    lo = min(scores)
+    want = Counter(((i,), lo) for i in range(n) if scores[i] == lo)
+    with instr.budget(20_000_000):
+        try:
+            g = outcome(lambda: [(tuple(c), s) for c, s in f(elems, list(scores), lo, lo + 1)])
+        except instr.StepBudgetExceeded:
+            return "operation-does-not-end", f"interval search next to the smallest score over {n} elements exceeded the statement budget"
+    if g[0] != "ok" or Counter(g[1]) != want:
+        return "interval-search", f"{n} elements, scores {scores}, interval [{lo},{lo + 1}) -> {str(g)[:200]}, expected {sorted(want)}"
+    return None
+
+
 def run_shard(spec):
     instr.install(["windpyutils.generic"])
     res = ShardResult()
@@ -200,8 +241,9 @@ def run_shard(spec):
                     report(bad, {"what": "sorted-raw", "vec": vec, "key": kn})
         if len(vec) <= (8 if spec["tier"] == "thorough" else 7):
             total = sum(vec)
-            for a in range(0, total + 3):
-                for b in range(0, total + 3):
+            bounds = list(range(0, total + 3))
+            for a in [-3, -1, 0.5, total + 0.5] + bounds:          # interval ends below zero and between two sums are intervals too
+                for b in (bounds if isinstance(a, int) and a >= 0 else [-1, 0, 1, 1.5, total, total + 1, total + 10]):
                     res.evaluations += 1
                     res.count("interval_searches")
                     if len(vec) >= 2:
@@ -225,6 +267,13 @@ def run_shard(spec):
                     bad = check_interval(big, a, b)
                     if bad:
                         report(bad, {"what": "interval", "vec": big, "a": a, "b": b})
+        if i % 23 == 0:
+            # many elements, lazily: more combinations than could ever be listed; only the beginning of the order is used
+            bad = check_many_elements(33 + i % 17, i)
+            res.evaluations += 1
+            res.count("runs_with_33_to_49_elements")
+            if bad:
+                report(bad, {"what": "many", "n": 33 + i % 17, "salt": i})
         if i % 301 == 0:
             res.sample({"scores": vec, "keys": list(KEYS), "intervals": f"all [a,b) with 0<=a,b<={sum(vec) + 2}"})
     res.count("repo_line_events", instr.S.total)
@@ -243,6 +292,8 @@ def replay(doc):
         bad = check_sorted(c["vec"], c["key"], c["yield_key"])
     elif c["what"] == "sorted-raw":
         bad = check_sorted_raw(c["vec"], c["key"])
+    elif c["what"] == "many":
+        bad = check_many_elements(c["n"], c["salt"])
     else:
         bad = check_interval(c["vec"], c["a"], c["b"])
     if bad:
